@@ -4,6 +4,7 @@ import (
 	"context"
 	"fmt"
 	"strings"
+	"sync"
 	"sync/atomic"
 	"time"
 
@@ -452,6 +453,8 @@ func c09Plugin(c *wk.Ctx, r *wk.Rand, idx int64) {
 	var done atomic.Int32
 	var viaATP *schema.SchemaSchema
 	var rerr error
+	var readMu sync.Mutex
+	readReturned := false
 	ctx, cancel := context.WithCancel(context.Background())
 	defer cancel()
 	go func() {
@@ -467,15 +470,35 @@ func c09Plugin(c *wk.Ctx, r *wk.Rand, idx int64) {
 			}
 		}()
 		cli := atp.NewClient(rig.Duplex{In: s2c, Out: c2s})
-		viaATP, rerr = cli.ReadSchema()
+		sch, err := cli.ReadSchema()
+		readMu.Lock()
+		viaATP, rerr, readReturned = sch, err, true
+		readMu.Unlock()
+		if err != nil {
+			// nothing more to do on this connection; let the server's pending writes fail
+			_ = s2c.CloseRead()
+			_ = c2s.CloseWrite()
+			return
+		}
 		_ = cli.Close()
 	}()
 	res := rig.Monitor(func() bool { return done.Load() == 2 }, nil, 20*time.Second)
 	_ = c2s.CloseRead()
 	_ = s2c.CloseRead()
 	rig.Settle(200 * time.Millisecond)
-	if res.Outcome != "done" {
-		c.Inconclusive("ATP hello session did not complete: " + res.Outcome)
+	readMu.Lock()
+	defer readMu.Unlock()
+	if !readReturned {
+		if res.Outcome == "deadlock" {
+			wit["blocked"] = res.Snap.Summary()
+			c.Violation("C09:plugin:readschema-never-returns", "ReadSchema never returns for the hello message of a plugin built with the SDK: every goroutine is blocked", wit)
+		} else {
+			c.Inconclusive("ATP hello session did not complete: " + res.Outcome)
+		}
+		return
+	}
+	if rerr == nil && res.Outcome != "done" {
+		c.Inconclusive("ATP hello session did not complete after ReadSchema: " + res.Outcome)
 		return
 	}
 	if rerr != nil || viaATP == nil {
